@@ -294,23 +294,29 @@ pub fn mutate_semantic(p: &mut Program, rng: &mut Rng) -> Option<String> {
         if seen == target {
             let m = pick % 4;
             let name: String = match e {
-                E::Struct { ty, case, fields, spread, def_fields, .. } => match pick % 11 {
+                E::Struct { ty, case, fields, spread, def_fields, .. } => match pick % 12 {
+                    // an extra entry whose name is not a field of the case but is something else in scope
+                    // (a parameter, party, policy, asset, type, env var, local, input, output ...)
+                    11 => {
+                        fields.push((fname.clone(), E::Int(1)));
+                        format!("constructor-extra-entry-named-like-{fk}")
+                    }
                     // a list index that is a bare name of the wrong kind: one of the constructor's own
                     // field names (in scope inside the constructor, but a field is not a value) ...
                     8 if !fields.is_empty() && !def_fields.is_empty() => {
-                        let k = (pick / 11) as usize % fields.len();
+                        let k = (pick / 12) as usize % fields.len();
                         let own = def_fields[(pick / 64) as usize % def_fields.len()].clone();
                         fields[k].1 = E::Raw(format!("idxList9[{own}]"));
                         "index-by-own-field-name".into()
                     }
                     // ... or the name of a type / party / asset / policy / case / function
                     9 if !fields.is_empty() => {
-                        let k = (pick / 11) as usize % fields.len();
+                        let k = (pick / 12) as usize % fields.len();
                         fields[k].1 = E::Raw(format!("idxList9[{fname}]"));
                         format!("index-by-{fk}")
                     }
                     10 if !fields.is_empty() => {
-                        let k = (pick / 11) as usize % fields.len();
+                        let k = (pick / 12) as usize % fields.len();
                         fields[k].1 = E::Raw(format!("idxList9[idxList9[{fname}]]"));
                         format!("nested-index-by-{fk}")
                     }
